@@ -98,6 +98,10 @@ def task_sets(tier):
     for a, b in NEAR_DUPLICATES[:3] + NEAR_DUPLICATES[5:7] + NEAR_DUPLICATES[9:10]:
         out.append(("v3", [a, b], None))
     out.append(("v2c", ["bulkgetS", "bulkgetR", "bulkgetS5"], 2))
+    # the same with a clock that stands still (ids derived from it coincide)
+    for a, b in NEAR_DUPLICATES:
+        out.append(("v2c:tick0", [a, b], None))
+    out.append(("v3:tick0", ["getA", "getnext"], None))
     # an operation whose caller gives up while the others go on
     out.append(("v2c", ["getA!", "getB"], None))
     out.append(("v2c", ["walk!", "getA"], None))
